@@ -18,8 +18,8 @@ type Write struct {
 	Global *ssa.Global  // non-nil when rooted at a package-level variable
 	Root   ssa.Value    // root of the address chain
 	Class  RootClass
-	Loads  int          // number of pointer loads between root and the written location
-	Val    ssa.Value    // value stored (nil for calls)
+	Loads  int       // number of pointer loads between root and the written location
+	Val    ssa.Value // value stored (nil for calls)
 	// Chain is every (struct, field) step crossed from the root to the written
 	// location, outermost first; the last one equals (Struct, Field).
 	Chain []FieldStep
